@@ -30,13 +30,14 @@ func (core *JApiCore) buildRule(d *directive.Directive) *jerr.JApiError {
 		return nil
 	}
 
-	if !d.BodyCoords.IsSet() {
-		return nil
-	}
-
 	name := d.NamedParameter("Name")
 	if name == "" {
 		return d.KeywordError(fmt.Sprintf("%s (%s)", jerr.RequiredParameterNotSpecified, "Name"))
+	}
+
+	if !d.BodyCoords.IsSet() {
+		// The scanner lets an ENUM without a body through at the end of a file.
+		return d.KeywordError(jerr.EmptyBody)
 	}
 
 	r := enum.New(name, d.BodyCoords.Read())
